@@ -166,14 +166,34 @@ func init() {
 		{"c12Skel_MaxJobsRelease", "martian/core/maxjobs_semaphore.go", "MaxJobsSemaphore", "Release", nil},
 		{"c12Skel_MaxJobsFindDone", "martian/core/maxjobs_semaphore.go", "MaxJobsSemaphore", "FindDone", nil},
 		{"c12Skel_MaxJobsClear", "martian/core/maxjobs_semaphore.go", "MaxJobsSemaphore", "Clear", nil},
-		{"c12Skel_GetSystemReqs", "martian/core/jobmanager_local.go", "LocalJobManager", "GetSystemReqs",
-			func(s string) bool { return !strings.HasPrefix(s, "if self.debug") }},
+		// (GetSystemReqs: no textual skeleton any more — its integer logic is translated and tied
+		// by theorems, Props/C12Tie.lean)
 		{"c12Skel_setupSemaphores", "martian/core/jobmanager_local.go", "LocalJobManager", "setupSemaphores",
 			func(s string) bool {
 				return strings.Contains(s, "Sem") || strings.Contains(s, "rlim") || strings.Contains(s, "maxVmemMB") ||
 					strings.Contains(s, "userProcs")
 			}},
 		{"c12Skel_Enqueue", "martian/core/jobmanager_local.go", "LocalJobManager", "Enqueue", enqueueKeep},
+		// the environment sampling that feeds the availability updates: which quantities go
+		// into which Update* call (the values themselves are environment input)
+		{"c12Skel_refreshResources", "martian/core/jobmanager_local.go", "LocalJobManager", "refreshResources",
+			func(s string) bool {
+				for _, k := range []string{"Sem.Update", "Sem != nil", "GetProcessTreeMemory", "sysMem.Get", "GetMaxProcs", "GetUserProcessCount", "load.Get", "limitLoad"} {
+					if strings.Contains(s, k) {
+						return true
+					}
+				}
+				return false
+			}},
+		// cluster mode: reconciliation with the scheduler's queue (Martian/SemaphoreQueue.lean)
+		{"c12Skel_queryQueue", "martian/core/pipestance.go", "Pipestance", "queryQueue",
+			func(s string) bool { return !strings.Contains(s, "task") && !strings.Contains(s, "prepDone") }},
+		{"c12Skel_checkQueue", "martian/core/jobmanager_remote.go", "RemoteJobManager", "checkQueue", nil},
+		{"c12Skel_failNotRunning", "martian/core/metadata.go", "Metadata", "failNotRunning", nil},
+		{"c12Skel_endRefresh", "martian/core/metadata.go", "Metadata", "endRefresh",
+			func(s string) bool {
+				return !strings.HasPrefix(s, "err") && !strings.HasPrefix(s, "if err") && !strings.HasPrefix(s, "var err")
+			}},
 	}
 	for _, sp := range specs {
 		sp := sp
@@ -198,6 +218,119 @@ func init() {
 			},
 		})
 	}
+
+	// durations of the queue-query reconciliation, in seconds
+	durSecs := func(fset *token.FileSet, e ast.Expr) (int64, error) {
+		unit := func(x ast.Expr) (int64, bool) {
+			switch exprText(fset, x) {
+			case "time.Second":
+				return 1, true
+			case "time.Minute":
+				return 60, true
+			case "time.Hour":
+				return 3600, true
+			}
+			return 0, false
+		}
+		if u, ok := unit(e); ok {
+			return u, nil
+		}
+		if b, ok := e.(*ast.BinaryExpr); ok && b.Op == token.MUL {
+			for _, p := range [][2]ast.Expr{{b.X, b.Y}, {b.Y, b.X}} {
+				if bl, ok := p[0].(*ast.BasicLit); ok && bl.Kind == token.INT {
+					if u, ok := unit(p[1]); ok {
+						n, err := strconv.ParseInt(bl.Value, 0, 64)
+						return n * u, err
+					}
+				}
+			}
+		}
+		return 0, fmt.Errorf("not a whole number of seconds: %s", exprText(fset, e))
+	}
+	addFact(fact{
+		name:   "queueCheckLimitSecs",
+		leanTy: "Nat",
+		deflt:  "300",
+		extract: func(repo string) (string, interface{}, error) {
+			fset, f, err := parseFile(repo, "martian/core/pipestance.go")
+			if err != nil {
+				return "", nil, err
+			}
+			fd := findMethod(f, "Pipestance", "queryQueue")
+			if fd == nil || fd.Body == nil {
+				return "", nil, fmt.Errorf("Pipestance.queryQueue not found")
+			}
+			var val int64 = -1
+			var bad error
+			used := false
+			ast.Inspect(fd.Body, func(n ast.Node) bool {
+				switch x := n.(type) {
+				case *ast.AssignStmt:
+					if len(x.Lhs) == 1 && len(x.Rhs) == 1 && exprText(fset, x.Lhs[0]) == "QUEUE_CHECK_LIMIT" {
+						if val >= 0 {
+							bad = fmt.Errorf("QUEUE_CHECK_LIMIT assigned twice")
+						}
+						val, err = durSecs(fset, x.Rhs[0])
+						if err != nil {
+							bad = err
+						}
+					}
+				case *ast.BinaryExpr:
+					if exprText(fset, x) == "time.Since(self.lastQueueCheck) < QUEUE_CHECK_LIMIT" {
+						used = true
+					}
+				}
+				return true
+			})
+			if bad != nil {
+				return "", nil, bad
+			}
+			if val < 0 || !used {
+				return "", nil, fmt.Errorf("QUEUE_CHECK_LIMIT / its rate-limit test not found in queryQueue")
+			}
+			return strconv.FormatInt(val, 10), val, nil
+		},
+	})
+	addFact(fact{
+		name:   "queueGraceDefaultSecs",
+		leanTy: "Nat",
+		deflt:  "3600",
+		extract: func(repo string) (string, interface{}, error) {
+			fset, f, err := parseFile(repo, "martian/core/jobmanager.go")
+			if err != nil {
+				return "", nil, err
+			}
+			var val int64 = -1
+			unitOK := false
+			var bad error
+			ast.Inspect(f, func(n ast.Node) bool {
+				switch x := n.(type) {
+				case *ast.IfStmt:
+					if exprText(fset, x.Cond) == "queueGrace == 0" && len(x.Body.List) == 1 {
+						if as, ok := x.Body.List[0].(*ast.AssignStmt); ok && len(as.Rhs) == 1 && exprText(fset, as.Lhs[0]) == "queueGrace" {
+							val, err = durSecs(fset, as.Rhs[0])
+							if err != nil {
+								bad = err
+							}
+						}
+					}
+				case *ast.AssignStmt:
+					if len(x.Lhs) == 1 && len(x.Rhs) == 1 && exprText(fset, x.Lhs[0]) == "queueGrace" &&
+						exprText(fset, x.Rhs[0]) == "time.Duration(jobModeJson.QueueQueryGrace) * time.Second" {
+						unitOK = true
+					}
+				}
+				return true
+			})
+			if bad != nil {
+				return "", nil, bad
+			}
+			if val < 0 || !unitOK {
+				return "", nil, fmt.Errorf("queue_query_grace_secs conversion / default not found")
+			}
+			return strconv.FormatInt(val, 10), val, nil
+		},
+	})
 
 	addFact(fact{
 		name:   "localStartingThreads",
